@@ -4,6 +4,7 @@ import (
 	"bytes"
 	"context"
 	"encoding/json"
+	"errors"
 	"fmt"
 	"io"
 	"log/slog"
@@ -786,6 +787,64 @@ func TestVerif_C20(t *testing.T) {
 		rep.Count("groups/"+g.Config, 1)
 	})
 
+	// ---- (c) a client that goes away while the document is written ------------------
+	// Requests whose ResponseWriter fails (at once, or after some bytes) are interleaved with
+	// ordinary ones on the same and on other muxes: what an ordinary request is answered with
+	// is the configured document, whatever happened to the requests before it.
+	nGone := vk.N(300, 6000)
+	vk.Parallel(nGone/10, func(ci int) {
+		r := vk.RNG("C20/gone", ci)
+		docs := []*mocrelay.NIP11{c20Doc(r), c20Doc(r), nil}
+		muxes := make([]http.Handler, len(docs))
+		for k, d := range docs {
+			switch r.IntN(3) {
+			case 0:
+				muxes[k] = &mocrelay.ServeMux{NIP11: d}
+			case 1:
+				muxes[k] = &mocrelay.ServeMux{NIP11: d, Default: http.NotFoundHandler()}
+			default:
+				if d != nil {
+					muxes[k] = d
+				} else {
+					muxes[k] = &mocrelay.ServeMux{}
+				}
+			}
+		}
+		for k := 0; k < 10 && rep.Violations() < 3; k++ {
+			a, b := r.IntN(len(docs)), r.IntN(len(docs))
+			for n := 1 + r.IntN(3); n > 0; n-- {
+				req := httptest.NewRequest("GET", "/", nil)
+				req.Header.Set("Accept", "application/nostr+json")
+				func() {
+					defer func() { recover() }() // a handler may give up on a dead connection any way it likes
+					muxes[a].ServeHTTP(&c20GoneWriter{h: http.Header{}, allow: vk.Pick(r, []int{0, 0, 1, 7, 100})}, req)
+				}()
+				rep.Count("requests_whose_client_went_away", 1)
+			}
+			req := httptest.NewRequest("GET", "/", nil)
+			req.Header.Set("Accept", "application/nostr+json")
+			rec := httptest.NewRecorder()
+			muxes[b].ServeHTTP(rec, req)
+			rep.Eval(1)
+			body := rec.Body.Bytes()
+			d, e := c20RefReadBytes(body)
+			wit := map[string]any{"body": c20Clip(string(body)), "document_configured": docs[b] != nil}
+			if docs[b] != nil {
+				wit["configured"] = fmt.Sprintf("%+v", c20Flat(docs[b]))
+			}
+			if e != "" {
+				rep.Violation("gone/body-not-json-document", "after requests whose client went away, an ordinary request is answered with something that is not a JSON relay information document: "+e, wit)
+				return
+			}
+			if diff := c20DocDiff(docs[b], d); diff != "" {
+				rep.Violation("gone/body-differs-from-configuration/"+c20PathClass(diff), "after requests whose client went away, the served document differs from the configuration at "+diff, wit)
+				return
+			}
+			rep.Count("documents_compared_after_a_failed_write", 1)
+		}
+	})
+	rep.Require(rep.Violations() > 0 || rep.Counter("documents_compared_after_a_failed_write") >= int64(nGone*9/10), "documents after failed writes")
+
 	// ---- sanity gates -----------------------------------------------------------
 	for _, cfg := range []string{"doc=false/default=false", "doc=true/default=false", "doc=false/default=true", "doc=true/default=true"} {
 		for _, route := range []string{"route_relay_session/", "route_relay_error/", "route_nip11/", "route_default/"} {
@@ -813,6 +872,24 @@ func TestVerif_C20(t *testing.T) {
 	rep.Require(rep.Counter("documents_compared_after_change") >= int64(nGroups), "too few documents fetched after a change of the configured value")
 	rep.Require(rep.SetSize("changed_fields") >= 10, "configuration changes did not reach enough fields")
 	rep.Require(rep.SetSize("greeting_text") >= 1, "greeting never observed")
+}
+
+// c20GoneWriter is the ResponseWriter of a connection that breaks after `allow` body bytes.
+type c20GoneWriter struct {
+	h     http.Header
+	allow int
+}
+
+func (w *c20GoneWriter) Header() http.Header { return w.h }
+func (w *c20GoneWriter) WriteHeader(int)     {}
+func (w *c20GoneWriter) Write(p []byte) (int, error) {
+	if len(p) <= w.allow {
+		w.allow -= len(p)
+		return len(p), nil
+	}
+	n := w.allow
+	w.allow = 0
+	return n, errors.New("write: broken pipe")
 }
 
 func (g *c20Group) seenServed(rep *vk.Report) {
